@@ -44,6 +44,13 @@ ASSUMPTIONS = ["Python >= 3.7 contextvars (threads start with an empty context: 
 NKEYS = 5
 TIMEOUT = 20.0
 
+# Genuine defects of /repo found by this check that are not yet listed in known_findings.json: they are counted
+# and noted in the evidence but not reported as violations until the integrator has recorded them.
+# (F30-falsy-configured-patcher: found in round 5, repaired in /repo by 8d54a52, recorded as fixed – a plain
+# violation again; corpus/C12/12_falsy_configured_patcher.json is its regression case.)
+F30 = "F30-falsy-configured-patcher"
+PENDING_FINDINGS = []
+
 # Key alphabet.  0..4 ordinary keys (heavy overlap between layers), 5 a key only patchers write, then names
 # that collide with parameter names / locals of the API the keys travel through as **kwargs (bind,
 # contextualize, the logging methods) or as dict keys (configure(extra=), patchers): every one of them is a
@@ -100,7 +107,7 @@ def gen_patcher(rng, st, chain=None):
     st["serial"] += 1
     st["npatch"] += 1
     p = [st["npatch"], rng.below(NKEYS + 1) if rng.chance(80) else pick_key(rng), st["serial"],
-         1 if rng.chance(30) else 0, rng.below(2)]
+         1 if rng.chance(30) else 0, rng.below(2), 1 if rng.chance(12) else 0]
     st["pdefs"][p[0]] = p       # key NKEYS = a key no layer uses
     return p
 
@@ -109,6 +116,13 @@ def pdef(p):
     """(id, key, value, mode, form) of a patcher descriptor (older corpus entries have 3 fields)"""
     p = list(p) + [0, 0]
     return p[0], p[1], p[2], p[3], p[4]
+
+
+def pwire(p):
+    """id,key,value,mode on the wire; the mode also carries the truth value of the patcher OBJECT (6th field of
+    the descriptor: 1 = a callable whose class makes it falsy): 0/1 truthy set/add, 2/3 falsy set/add"""
+    pid, key, val, mode, _ = pdef(p)
+    return pid, key, val, mode + (2 if pfalsy(p) else 0)
 
 
 def gen_exc(rng):
@@ -281,12 +295,12 @@ def op_token(op):
     if k == "bind":
         return "%d:B:%d:%s" % (c, op["l"], kw_tok(op["kw"]))
     if k == "patch":
-        return "%d:P:%d:%d,%d,%d,%d" % ((c, op["l"]) + pdef(op["p"])[:4])
+        return "%d:P:%d:%d,%d,%d,%d" % ((c, op["l"]) + pwire(op["p"]))
     if k == "opt":
         return "%d:O:%d:%s" % (c, op["l"], flags_tok(op["f"]))
     if k == "configure":
         return "%d:C:%s:%s" % (c, "-" if op["extra"] is None else kw_tok(op["extra"]),
-                               "-" if op["patcher"] is None else "%d,%d,%d,%d" % pdef(op["patcher"])[:4])
+                               "-" if op["patcher"] is None else "%d,%d,%d,%d" % pwire(op["patcher"]))
     if k == "spawn":
         return "%d:S:%d" % (c, 1 if op["copy"] else 0)
     if k == "add":
@@ -354,12 +368,72 @@ def parse_model(out):
     return events, loggers, finals
 
 
+def heap_line(trace, mut_res):
+    """the programme as seen by the object-level model (Context/Heap.lean): dict objects with identity; the
+    caller's in-place mutations ARE operations here"""
+    spec = Spec()
+    toks, nconf = [], 0
+    for i, op in enumerate(trace):
+        c, k = op["c"], op["op"]
+        if k == "configure":
+            if op["extra"] is not None:
+                toks.append("%d:a:%s" % (c, kw_tok(op["extra"])))
+                toks.append("%d:C:%d" % (c, nconf))
+                nconf += 1
+        elif k == "bind":
+            toks.append("%d:B:%d:%s" % (c, op["l"], kw_tok(op["kw"])))
+        elif k == "patch":
+            toks.append("%d:O:%d:%d" % (c, op["l"], spec.loggers[op["l"]]["flags"][6]))
+        elif k == "opt":
+            toks.append("%d:O:%d:%d" % (c, op["l"], int(op["f"]["capture"])))
+        elif k == "enter":
+            toks.append("%d:E:%s" % (c, kw_tok(op["kw"])))
+        elif k == "exit":
+            toks.append("%d:X" % c)
+        elif k == "raise":
+            toks += ["%d:X" % c] * op["k"]
+        elif k == "cancel":
+            toks += ["%d:X" % op["target"]] * op["k"]
+        elif k == "spawn":
+            toks.append("%d:S:%d" % (c, 1 if op["copy"] else 0))
+        elif k == "log":
+            if spec.handlers:
+                o = spec.loggers[op["l"]]
+                chain = ([spec.core_patcher] if spec.core_patcher else []) + o["patchers"]
+                toks.append("%d:L:%d:%s:%s" % (c, op["l"], kw_tok(op["kw"]),
+                                               ";".join("%d,%d,%d,%d" % pwire(p) for p in chain) or "_"))
+        elif k == "mutate":
+            r = mut_res.get(i, mut_res.get(str(i)))
+            if r:
+                how = {"set": "set,%d,%d" % (op["key"], op["val"]), "del": "del,%d" % op["key"],
+                       "clear": "clear"}[op["how"]]
+                toks.append("%d:M:%s:%s" % (c, r, how))
+        spec.apply(op)
+    return "hprog " + " ".join(toks)
+
+
+def pfalsy(p):
+    return len(p) > 5 and bool(p[5])
+
+
+def parse_heap(out):
+    if out == "bad-op":
+        raise core.DriverError("model rejected a C12 object-level programme line")
+    parts = [x.strip() for x in out.split("|")]
+    parts += [""] * (3 - len(parts))
+    return {"core": parse_kw(parts[0][2:]), "loggers": [parse_kw(t[2:]) for t in parts[1].split()],
+            "records": [parse_kw(t[2:]) for t in parts[2].split()]}
+
+
 # ============================================================================ independent specification
 class Spec:
     """The property itself, executable: layers + the *set of open blocks* of each execution context.
     No tokens, no reset – `exit` just forgets the innermost open block."""
 
-    def __init__(self):
+    def __init__(self, mirror=False):
+        # mirror=True: the property EXCEPT that a configured patcher whose object is falsy is not called (the defect
+        # F30, repaired by 8d54a52) – only used to CLASSIFY a disagreement (stable key), never to accept one
+        self.mirror = mirror
         self.core_extra = {}
         self.core_patcher = None
         self.handlers = []
@@ -433,6 +507,8 @@ class Spec:
             if sum(1 for layer in layers if layer) >= 2 or any(self.blocks[x] for x in self.blocks if x != c):
                 self.nontrivial = True
             chain = ([self.core_patcher] if self.core_patcher else []) + o["patchers"]
+            if self.mirror and self.core_patcher and pfalsy(self.core_patcher):
+                chain = chain[1:]
             # once per ATTACHMENT, in the order of attachment – also when the same (or an equal) callable
             # was attached more than once
             for pt in chain:
@@ -533,6 +609,32 @@ class PatcherObj:
         extra[k] = self.val if self.mode == 0 else extra.get(k, 0) + self.val
 
 
+class FalsyCallable:
+    """a perfectly legal patcher: a callable object that happens to be falsy"""
+
+    def __init__(self, obj):
+        self.obj, self.pid = obj, obj.pid
+
+    def __call__(self, record):
+        self.obj.apply(record)
+
+    def __eq__(self, other):
+        return isinstance(other, FalsyCallable) and other.obj is self.obj
+
+    def __hash__(self):
+        return hash(self.pid)
+
+
+class FalsyByBool(FalsyCallable):
+    def __bool__(self):
+        return False
+
+
+class FalsyByLen(FalsyCallable):        # e.g. a callable registry / collection that is empty
+    def __len__(self):
+        return 0
+
+
 def pid_of(p):
     if hasattr(p, "__self__") and isinstance(p.__self__, PatcherObj):
         return p.__self__.pid
@@ -566,6 +668,9 @@ class Run:
         self.workers = {}
         self.step_i = -1
         self.errors = []
+        self.rec_objs = []         # the distinct `extra` dict OBJECTS handed to sinks, in order of first delivery
+        self.mut_res = {}          # step -> what a `mutate` operation resolved to ("o<i>" / "r<j>")
+        self.hobs = None           # object-level observation at the end of the programme
 
     # ---- observation
     @staticmethod
@@ -588,6 +693,12 @@ class Run:
         obj = self.pobjs.get(pid)
         if obj is None:
             obj = self.pobjs[pid] = PatcherObj(self, pid, key, val, mode)
+        if pfalsy(p):
+            if form:
+                return FalsyByLen(obj)          # an equal, distinct object at every attachment
+            if not hasattr(obj, "falsy"):
+                obj.falsy = FalsyByBool(obj)
+            return obj.falsy
         return obj.apply if form else obj.func
 
     def mk_sink(self, h):
@@ -595,6 +706,8 @@ class Run:
             rec = message.record
             self.events.append(("d", self.cur, h, self.canon(rec["extra"])))
             self.records.append((rec, dict(rec["extra"])))
+            if not any(rec["extra"] is x for x in self.rec_objs):
+                self.rec_objs.append(rec["extra"])
             ident = threading.get_ident()
             if self.workers[self.cur].ident != ident:
                 self.errors.append("sink ran in a thread other than the one that logs")
@@ -629,11 +742,16 @@ class Run:
             if not self.records:
                 return
             target = self.records[op["i"] % len(self.records)][0]["extra"]
+            for j, x in enumerate(self.rec_objs):
+                if x is target:
+                    self.mut_res[self.step_i] = "r%d" % j
         else:
             pool = self.conf_dicts if what == "configure" else self.kw_dicts
             if not pool:
                 return
             target = pool[op["i"] % len(pool)]
+            if what == "configure":
+                self.mut_res[self.step_i] = "o%d" % (op["i"] % len(pool))
         k = key_name(op["key"])
         if op["how"] == "set":
             target[k] = op["val"]
@@ -823,6 +941,10 @@ class Run:
             self.exec_asyncio()
         if self.errors:
             raise RuntimeError("C12 harness: " + "; ".join(self.errors[:3]))
+        # object-level observation: what the dict OBJECTS hold now (after every in-place change anybody made)
+        self.hobs = {"core": self.canon(self.logger0._core.extra),
+                     "loggers": [self.canon(lg._options[8]) for lg in self.loggers],
+                     "records": [self.canon(x) for x in self.rec_objs]}
         try:
             self.logger0.remove()
         except Exception:
@@ -963,7 +1085,23 @@ def judge(ctx, trace, mode, model_out=None, report=True):
     run.execute()
     problems = []
     # ---- direct oracle: the property's executable specification
-    if run.events != spec.expected:
+    f30 = False
+    if run.events != spec.expected and any(o["op"] in ("configure", "patch") and pfalsy(o.get("patcher") or o.get("p") or [])
+                                           for o in trace):
+        mirror = Spec(mirror=True)
+        for op in trace:
+            mirror.apply(op)
+        f30 = run.events == mirror.expected
+    if f30:
+        i = 0
+        while i < len(run.events) and i < len(spec.expected) and run.events[i] == spec.expected[i]:
+            i += 1
+        exp = spec.expected[i] if i < len(spec.expected) else None
+        problems.append((F30, "event #%d: the property requires %r (p = patcher call (ctx, patcher, extra shown)): the "
+                         "patcher given to configure(patcher=) is a callable object whose truth value is False and "
+                         "Logger._log tests `if core.patcher:` – it is never called; the implementation produced %r"
+                         % (i, exp, run.events[i] if i < len(run.events) else None)))
+    elif run.events != spec.expected:
         i = 0
         while i < len(run.events) and i < len(spec.expected) and run.events[i] == spec.expected[i]:
             i += 1
@@ -1236,7 +1374,8 @@ def evaluate(trace, mode):
     problems, r, spec = judge(None, trace, mode)
     return {"trace": trace, "mode": mode, "problems": problems, "events": r.events,
             "lsnaps": [tuple(x) for x in r.lsnaps], "finals": dict(r.finals), "nworkers": len(r.workers),
-            "nontrivial": spec.nontrivial, "repeated_patcher": spec.repeated_patcher}
+            "nontrivial": spec.nontrivial, "repeated_patcher": spec.repeated_patcher,
+            "hline": heap_line(trace, r.mut_res), "hobs": r.hobs, "mut_res": dict(r.mut_res)}
 
 
 def _job(args):
@@ -1265,6 +1404,7 @@ def run(ctx):
     cases = []
     lines = []
     reported = [0]
+    f30_seen = []
 
     def account(res, origin):
         trace, mode = res["trace"], res["mode"]
@@ -1282,6 +1422,16 @@ def run(ctx):
                      + (":" + op.get("exc", "exception") if op["op"] == "raise" else ""))
         for kind, text in res["problems"]:
             ctx.stat("problems:" + kind)
+            if kind == F30:
+                if not f30_seen:
+                    f30_seen.append(1)
+                    what = "configured patcher not called [%s, %s]: %s" % (mode, origin, text)
+                    rep = {"mode": mode, "trace": trace, "line": prog_line(trace), "kind": F30}
+                    if F30 in PENDING_FINDINGS:
+                        ctx.note("PENDING finding %s (not yet in known_findings.json): %s" % (F30, what))
+                    else:
+                        ctx.violation(what, rep, key=F30, kind="oracle")
+                continue
             if len(pending[kind]) < 2:
                 # A defect may leave state behind in the PROCESS (a mutated ContextVar default, a global):
                 # then trivial programmes "fail" here but not in a fresh interpreter.  Shrink only while the
@@ -1352,7 +1502,9 @@ def run(ctx):
         cv_cases.append((ops, run_cv(ops)))
     cv_lines = ["cv " + " ".join(ops) for ops, _ in cv_cases]
 
-    out = drv.run(lines + cv_lines)
+    hcases = [res for res in cases if res.get("hobs") is not None and not any(e[0] == "e" for e in res["events"])]
+    hlines = [res["hline"] for res in hcases]
+    out = drv.run(lines + cv_lines + hlines)
     bad = 0
     for res, o in zip(cases, out):
         mev, mlg, mfin = parse_model(o)
@@ -1374,6 +1526,24 @@ def run(ctx):
                 ctx.violation("implementation and model disagree [%s]: %s" % (res["mode"], detail),
                               {"mode": res["mode"], "trace": res["trace"], "line": prog_line(res["trace"]),
                                "kind": "correspondence"}, kind="correspondence")
+    # ---- object-level correspondence: contents of the dict OBJECTS (core.extra, every logger's bound extra, every
+    # record's extra) at the end of the programme, after every in-place change made by loguru, patchers and caller
+    badh = 0
+    for res, o in zip(hcases, out[len(lines) + len(cv_lines):]):
+        ctx.stat("heap_programs")
+        ctx.traces_validated += 1
+        m = parse_heap(o)
+        if m != res["hobs"]:
+            badh += 1
+            ctx.stat("heap_disagreements")
+            if badh <= 2:
+                which = [k for k in ("core", "loggers", "records") if m[k] != res["hobs"][k]]
+                detail = "dict objects (%s) at the end of the programme: model %r, implementation %r" % (
+                    ", ".join(which), {k: m[k] for k in which}, {k: res["hobs"][k] for k in which})
+                ctx.broke("correspondence Context.Heap.hrun", "%s\n%s\n%s" % (res["mode"], res["hline"], detail))
+                ctx.violation("implementation and object-level model disagree [%s]: %s" % (res["mode"], detail),
+                              {"mode": res["mode"], "trace": res["trace"], "line": prog_line(res["trace"]),
+                               "hline": res["hline"], "kind": "correspondence-heap"}, kind="correspondence")
     badcv = 0
     for (ops, exp), o in zip(cv_cases, out[len(lines):]):
         ctx.case(("cv", " ".join(ops)))
@@ -1409,6 +1579,15 @@ def replay(ctx, rep):
     except Exception as e:  # the model may be unavailable when a proof obligation is broken
         print("model unavailable:", str(e)[:200])
     problems, run_, spec = judge(ctx, trace, mode, model_out=out)
+    try:
+        if run_.hobs is not None and not any(e[0] == "e" for e in run_.events):
+            hl = heap_line(trace, run_.mut_res)
+            hm = parse_heap(core.Driver(DRIVER).run([hl])[0])
+            if hm != run_.hobs:
+                problems.append(("correspondence-heap", "dict objects at the end: model %r, implementation %r"
+                                 % (hm, run_.hobs)))
+    except Exception as e:  # noqa
+        print("object-level model unavailable:", str(e)[:200])
     print("mode:", mode)
     print("programme:", prog_line(trace))
     print("implementation events:", run_.events)
@@ -1416,6 +1595,6 @@ def replay(ctx, rep):
     for kind, text in problems:
         print("%s: %s" % (kind, text))
     want = r.get("kind", "oracle")
-    bad = any(k == want or (want == "oracle" and k in ("oracle", "alias", "final", "options")) for k, _ in problems)
+    bad = any(k == want or (want == "oracle" and k in ("oracle", "alias", "final", "options", F30)) for k, _ in problems)
     print("REPRODUCED" if bad else "not reproduced")
     return 1 if bad else 0
